@@ -16,6 +16,7 @@ kernel with a natural power is PSD as well (`psd_sumPower_nat`).
 -/
 import Xrfmv.Lemmas.Kernel
 import Xrfmv.Lemmas.KernelPsd
+import Xrfmv.Lemmas.KernelGen
 import Mathlib.Analysis.SpecialFunctions.Pow.Continuity
 
 namespace Xrfmv.Props.C05
@@ -199,6 +200,45 @@ theorem driver_matrix_eq {α : Type} [Add α] [Sub α] [Mul α] [Div α] [Neg α
     [Max α] [HasExp α] [HasRpow α] [HasAbs α]
     (K : Spec α) (T : Transform α) (xs zs : List (List α)) : matrixFast K T xs zs = matrix K T xs zs :=
   matrixFast_eq K T xs zs
+
+/-! ### the code's own chain of tensor operations (regenerated `Gen.KernelOps`) -/
+
+/-- **C05, matrices match their definitions — over the regenerated source.**  For every CPU kernel class the chain of
+tensor operations of its `_get_kernel_matrix_impl` as it is written *now* (creation of the distance matrix, `clamp_`,
+`sqrt_`, `pow_`, the call of `_adapt_bandwidth`, `mul_`, `exp_`, for the sum-power kernel `abs_`, the reduction over the
+feature axis, `add_`; translated statement by statement into `Gen.KernelOps` on every run) computes, entry by entry and for
+every transform, pair of rows and admissible parameter, the closed form of the kernel (`Kernel.entry`, spelled out by
+`lpq_closed_form` / `sumPower_closed_form` / `light_expansion`).  The sum-power kernel reads `x.shape[1]`: the two rows must
+have the same number of features after the transform (always, for rows of two matrices given the same `mat`). -/
+theorem gen_pipeline_eq_model (K : Spec ℝ) (hK : Valid K) (T : Transform ℝ) (x z : List ℝ)
+    (hlen : K.isSumPower = true → (applyT T z).length = (applyT T x).length) :
+    KernelOps.genEntry K T x z = entry K T x z := by
+  unfold KernelOps.genEntry
+  cases K with
+  | laplace q L => exact KernelOps.laplace_eq _ T x z
+  | light q L => exact KernelOps.light_eq _ T x z
+  | product q L => exact KernelOps.product_eq hK.2 _ T x z
+  | lpq p q L => exact KernelOps.lpq_eq _ T x z
+  | sumPower q L c P => exact KernelOps.sumPower_eq T x z (hlen rfl)
+
+/-- … hence the whole matrix returned by the regenerated chain is the matrix of closed forms. -/
+theorem gen_matrix_eq_model (K : Spec ℝ) (hK : Valid K) (T : Transform ℝ) (xs zs : List (List ℝ))
+    (hlen : K.isSumPower = true → ∀ x ∈ xs, ∀ z ∈ zs, (applyT T z).length = (applyT T x).length) :
+    KernelOps.genMatrix K T xs zs = matrix K T xs zs := by
+  unfold KernelOps.genMatrix matrix
+  refine List.map_congr_left fun x hx => List.map_congr_left fun z hz => ?_
+  exact gen_pipeline_eq_model K hK T x z fun h => hlen h x hx z hz
+
+/-- **C05, the bandwidth in the formula is the one in use.**  In every regenerated chain each read of `self.bandwidth`
+comes after the call of `_adapt_bandwidth` (a pending adaptation is performed before the bandwidth enters the formula; a
+value read earlier would be the stale one). -/
+theorem bandwidth_read_after_adaptation :
+    KernelOps.bandwidthUses.all KernelOps.BandwidthUse.readsAfterAdapt = true := by decide
+
+-- non-vacuity: the guards of `gen_pipeline_eq_model` are met by concrete kernels and rows of equal length
+example : Valid (.sumPower 0.7 2 0.25 2) ∧
+    (applyT (.diag [2, 3]) ([1, 5] : List ℝ)).length = (applyT (.diag [2, 3]) ([4, 6] : List ℝ)).length := by
+  refine ⟨by unfold Valid; norm_num, by simp [applyT]⟩
 
 /-! ### the alias table (regenerated `Gen.Alias`) -/
 open Xrfmv.Gen.Alias in
